@@ -401,3 +401,20 @@ def termination_family():
                         for post in posts:
                             out.append(pre + x + y + post)
     return list(dict.fromkeys(out))
+
+
+
+def tree_position_family():
+    """the encoder chooses the form of a tree wildcard from (its position in its concatenation, the position handed down by
+    the enclosing branches, rootedness): every combination that can be written, for alternations and repetitions, one and
+    two levels deep, with text or a separator on either side"""
+    trees = {"first": ["**/x", "/**/x"], "middle": ["x/**/y"], "last": ["x/**"], "only": ["**", "/**"]}
+    wraps = ["{%s,q}", "{%s}", "<%s:1,2>", "<%s:1>", "{{%s},q}", "<{%s,q}:1,2>", "{<%s:1,2>,q}"]
+    outer = ["%s", "%sb", "a%sb", "a%s", "a/%s", "%s/b", "a/%s/b"]
+    out = []
+    for pos, forms in trees.items():
+        for f in forms:
+            for w in wraps:
+                for o in outer:
+                    out.append(o % (w % f))
+    return list(dict.fromkeys(out))
